@@ -76,13 +76,14 @@ func VH_C08_usable() {
 	m.stop = vNondet[bool]("stop") // the limit is usable in both error-handling modes
 	exec := func(ctx context.Context, item Result) (Result, error) {
 		k := bIndex(item)
-		vMonC(1, func() { m.inflight++ })
 		if k < m.c {
-			// the first c items are mutually dependent: each waits until all c are in flight
+			// the first c items are mutually dependent: each waits until all c of THEM are in flight
+			// (other items come and go)
+			vMonC(1, func() { m.inflight++ })
 			vBlockUntil(func() bool { return m.maxIn >= m.c || m.inflight >= m.c })
 			vMonC(3, func() { m.maxIn = m.c })
+			vMonC(2, func() { m.inflight-- })
 		}
-		vMonC(2, func() { m.inflight-- })
 		return item, nil
 	}
 	b := bNode(m, exec)
